@@ -94,3 +94,8 @@ PROPS["C19"] = {
         {"pkg": "validate", "hdir": "validate", "specs": [spec("C19/step", "VerifC19Step"), spec("C19/seq", "VerifC19Seq"), spec("C19/fnv-injective", "VerifC19Injective")]},
     ],
 }
+
+# per-property fragments (obl_Cxx.py) add further PROPS entries
+import glob as _glob, os as _os
+for _f in sorted(_glob.glob(_os.path.join(_os.path.dirname(_os.path.abspath(__file__)), "obl_*.py"))):
+    exec(compile(open(_f).read(), _f, "exec"))
